@@ -25,7 +25,7 @@ RULE = ('scenario families: hostile mailbox names x (CREATE LIST LSUB STATUS SEL
 
 HEADER_VALUES = [b'plain', b'a\rb', b'a\nb', b'a\r\n b', b'x\x00y', b'caf\xc3\xa9', b'\xff\xfe', b'"quoted" \\ back', b'(paren', b'{5}', b'brace}', b'x' * 90, b'=?utf-8?q?h=C3=A9llo?=',
                  b'=?utf-8?b?4pyT?= ok', b'a@b.c', b'"A \\"B\\"" <a@b.c>', b'<id@host>', b'Mon, 1 Jan 2001 10:00:00 +0000', b'garbage date', b'Fri, 31 Dec 9999 23:59:59 -0000', b'Fri, 31 Dec 9999 23:59:59 -1200', b'Mon, 1 Jan 0001 00:00:00 +1400', b'1 Jan 1800 00:00:00 -0000', b'', b' ', b'\t', b'a;b="c\rd"', b'%s%n',
-                 b'NIL', b'\\', b'"', b'a' + b'\xe2\x80\xa8' + b'b', b'text/plain; charset="x\ry"; name="n\x00m"', b'multipart/mixed; boundary="b\r1"', b'inline; filename="f\\"g"',
+                 b'NIL', b'\\', b'"', b'a' + b'\xe2\x80\xa8' + b'b', b'text/plain; charset="x\ry"; name="n\x00m"', b'multipart/mixed; boundary="b\r1"', b'inline; filename="f\\"g"', b'"attachment"; filename="report.pdf"', b';filename=x', b'"text/plain"; charset=x', b';charset=utf-8',
                  # repetition: whatever walks a header value must not do it by recursion (Subject prefixes, comments, groups, id lists)
                  b're: ' * 1500 + b'x', b'[t] ' * 1500 + b'x', b'Fwd: Re: ' * 800, b'<a@b> ' * 1500, b'(' * 1500, b'(a' * 700 + b')' * 700, b'a@b, ' * 1500, b'g:' * 1200 + b';',
                  b'"' + b'\\"' * 1500 + b'"', b'=?utf-8?q?x?= ' * 1200,
@@ -44,6 +44,13 @@ KEYWORDS = [b'kw', b'$Forwarded', b'a.b', b'x-y', b'NonJunk', b'\\Custom', b'a]b
 TAGS = [b'a', b'A1', b'a.b', b'a-b', b'x]y', b'a&', b'~t', b'1', b'a{', b'a"b', b'a(b', b'a%b', b'a*b', b'a\\b', b'\xc3\xa9', b'a' * 70]
 
 
+DISPOSITIONS = [b'"attachment"; filename="report.pdf"', b';filename=x', b'; filename="a b"', b'attachment', b'attachment;', b'attachment; filename', b'attachment; filename=', b'inline; =x',
+                b'attachment; filename="x"; filename="y"', b'(comment) attachment; filename=x', b'attachment (c); filename*=utf-8\'\'%e2%82%ac.txt', b'a/b; x=y', b'=?utf-8?q?attachment?=; filename=x',
+                b'attachment; filename*0="a"; filename*1="b"', b'"inline"', b'in line; x=y', b'attachment; size=12345678901234567890', b'']
+CTYPES = [b'"text/plain"; charset=x', b';charset=utf-8', b'text; charset=x', b'text/; charset=x', b'/plain; charset=x', b'text/plain; charset', b'text/plain; =x', b'text/plain; charset="a"; charset="b"',
+          b'text/plain (c); name*=utf-8\'\'%e2%82%ac', b'multipart/mixed', b'multipart/mixed; boundary=', b'message/rfc822; x=y', b'text/plain; name*0="a"; name*1="b"', b'']
+
+
 def hostile_message(r):
     if r.random() < 0.4:
         return gen.message(r)
@@ -51,6 +58,11 @@ def hostile_message(r):
     hdr = b''
     for _ in range(r.randint(1, 6)):
         hdr += r.choice(HEADER_NAMES) + b': ' + r.choice(HEADER_VALUES) + eol
+    if r.random() < 0.35:
+        # a disposition or content type the email package reads only in part: parameters without a type, a quoted type, a type with nothing behind it
+        hdr += b'Content-Disposition: ' + r.choice(DISPOSITIONS) + eol
+    if r.random() < 0.15:
+        hdr += b'Content-Type: ' + r.choice(CTYPES) + eol
     if r.random() < 0.4:
         b = r.choice([b'xx', b'b"1', b'y y'])
         hdr += b'Content-Type: multipart/' + r.choice([b'mixed', b'alternative', b'x"y']) + b'; boundary="' + b.replace(b'"', b'\\"') + b'"' + eol
